@@ -123,6 +123,7 @@ def run(P, rep, tier):
     rep.floor('C07.D1c', 500)
     run_satsign(P, rep)
     run_lanewidth(P, rep)
+    run_retwidth(P, rep)
     # the 16-bit lane capacity of the AVX2 variance family is as much a statement about kernel == C reference as about
     # output independent of the instruction set: same rule, reported under this property too
     from rules.C06 import run_acc16
@@ -360,3 +361,36 @@ def run_lanewidth(P, rep, rule='C07.LANEWIDTH'):
                '%s holds full 64-bit products (mul_epi32 / 64-bit sums of them) and is accumulated with %s: carries out of the low 32 bits of a lane are dropped, so once a lane sum passes 2^32 the kernel and its 64-bit C reference disagree' % (var, uc))
     rep.ob(rule, 'all-kernels', not sites, 'Source/Lib', '%d 32x32->64 products in %d SIMD-unit functions; none is accumulated with a narrower lane addition (witness pattern matched: rule is live)' % (nprod, len(kernels)))
     rep.floor(rule, 1)
+
+
+# ---------------- RETWIDTH: a SIMD kernel declared to return a 64-bit sum must not end in a signed 32-bit reduction.  `return
+# hadd32(...)` / `return _mm_cvtsi128_si32(x)` in a function returning uint64_t / int64_t is a belief contradiction: the signature
+# says the value needs 64 bits (and the C reference accumulates in 64), the last step keeps 32 and sign-extends them.  An explicit
+# unsigned cast of a 32-bit value states the narrower range on purpose and is left alone.
+def run_retwidth(P, rep, rule='C07.RETWIDTH'):
+    W32 = ('_mm_cvtsi128_si32', '_mm_extract_epi32', '_mm256_extract_epi32')
+    kernels = [f for f in P.fns if f.lib in ('Common', 'Encoder', 'Decoder') and not f.nocfg and f.sub.startswith('ASM_')]
+    n = 0
+    for f in kernels:
+        if f.ret.replace(' ', '') not in ('uint64_t', 'int64_t'):
+            continue
+        for ev in f.events(('ret',)):
+            e = ev.get('e')
+            x = e
+            casted = False
+            while x is not None and isinstance(x, list) and x and x[0] == 'k':
+                if 'uint32_t' in str(x[1]) or 'unsigned' in str(x[1]):
+                    casted = True
+                x = x[-1]
+            if x is None or x[0] != 'c':
+                continue
+            cn = callee_name(x) or ''
+            g = P.fn(cn, required=False)
+            rt = g.ret.replace(' ', '') if g is not None else None
+            n += 1
+            narrow = cn in W32 or rt in ('int32_t', 'int')
+            ok = not narrow or casted
+            rep.ob(rule, '%s/return:%s' % (f.name, cn), ok, f.loc(ev),
+                   ('%s returns the 64-bit value of %s' % (f.name, cn)) if ok else
+                   ('%s is declared to return %s but returns the signed 32-bit result of %s: a sum that reaches 2^31 comes back sign-extended, one above 2^32 wrapped, while the C reference returns the 64-bit sum' % (f.name, f.ret, cn)))
+    rep.floor(rule, 8)
